@@ -9,8 +9,59 @@
 // Case grammar and output tokens: see checks/C09.py.
 #include "common.hpp"
 #include "libphysica/Numerics.hpp"
+#include <fstream>
 #include <memory>
+#include <unistd.h>
 using namespace libphysica;
+
+// ---- Save_Function: the file it writes is an output of the object.  The harness lets the object write a scratch file, reads it
+// back and prints, per row, the fields of the file verbatim (t:<text>) followed by the argument the row belongs to (computed here, not
+// by the library: min + k * ((max - min) / (points - 1.0)), the single point min if points < 2 or min == max) and what fresh objects
+// return for that single argument.
+static std::string scratch_file()
+{
+	static int counter = 0;
+	const char* d = getenv("TMPDIR");
+	return std::string(d ? d : "/tmp") + "/verif_C09_save_" + std::to_string((long) getpid()) + "_" + std::to_string(counter++) + ".txt";
+}
+static std::vector<std::vector<std::string>> read_rows(const std::string& fn)
+{
+	std::vector<std::vector<std::string>> rows;
+	std::ifstream in(fn);
+	std::string line;
+	while(std::getline(in, line))
+	{
+		std::vector<std::string> fields(1);
+		for(char ch : line)
+		{
+			if(ch == '\t')
+				fields.emplace_back();
+			else if(ch == ' ' || ch == '\r')
+				fields.back() += '?';	// no field of a well-formed row holds white space
+			else
+				fields.back() += ch;
+		}
+		rows.push_back(fields);
+	}
+	in.close();
+	std::remove(fn.c_str());
+	return rows;
+}
+static std::vector<double> points_of(double mn, double mx, long points)
+{
+	std::vector<double> p;
+	if(points < 2 || mn == mx)
+		return {mn};
+	double step = (mx - mn) / ((double) points - 1.0);
+	for(long k = 0; k < points; k++)
+		p.push_back(mn + (double) k * step);
+	return p;
+}
+static void put_fields(vh::Out& o, const std::vector<std::string>& row, size_t want)
+{
+	for(size_t k = 0; k < want; k++)
+		o.w(row.size() == want ? "t:" + row[k] : std::string("t:!malformed-row"));
+}
 
 struct Ctor
 {
@@ -164,6 +215,33 @@ static int query1(const std::string& w, vh::Reader& r, vh::Out& o, Interpolation
 		cur->Multiply(f);
 		pf *= f;
 		o.f(pf);
+	}
+	else if(w == "F")	// Save_Function(file, points)
+	{
+		long n		   = r.integer();
+		std::string fn = scratch_file();
+		cur->Save_Function(fn, (unsigned int) n);
+		auto rows				= read_rows(fn);
+		std::vector<double> pts = points_of(cur->domain[0], cur->domain[1], n);
+		o.i((long) rows.size());
+		for(size_t k = 0; k < rows.size(); k++)
+		{
+			put_fields(o, rows[k], 2);
+			double x = k < pts.size() ? pts[k] : std::nan("");
+			o.f(x);
+			if(k < pts.size())
+			{
+				Interpolation f = fresh();
+				Interpolation b = mk.make();
+				o.f(f.Interpolate(x));
+				o.f(b.Interpolate(x));
+			}
+			else
+			{
+				o.f(std::nan(""));
+				o.f(std::nan(""));
+			}
+		}
 	}
 	else
 		return 0;
@@ -443,6 +521,44 @@ static int query2(const std::string& w, vh::Reader& r, vh::Out& o, Interpolation
 		cur->Multiply(c);
 		pf *= c;
 		o.f(pf);
+	}
+	else if(w == "F" || w == "f")	// Save_Function(file, x_points, y_points) / Save_Function(file, x_points): the default argument y_points = 0
+	{
+		long nx = r.integer(), ny = 0;
+		std::string fn = scratch_file();
+		if(w == "F")
+		{
+			ny = r.integer();
+			cur->Save_Function(fn, (unsigned int) nx, (unsigned int) ny);
+		}
+		else
+			cur->Save_Function(fn, (unsigned int) nx);
+		auto rows = read_rows(fn);
+		if(ny == 0)
+			ny = nx;   // what the default argument stands for
+		std::vector<double> px = points_of(cur->domain[0][0], cur->domain[0][1], nx);
+		std::vector<double> py = points_of(cur->domain[1][0], cur->domain[1][1], ny);
+		o.i((long) rows.size());
+		for(size_t k = 0; k < rows.size(); k++)
+		{
+			put_fields(o, rows[k], 3);
+			bool in	 = k < px.size() * py.size();
+			double x = in ? px[k / py.size()] : std::nan(""), y = in ? py[k % py.size()] : std::nan("");
+			o.f(x);
+			o.f(y);
+			if(in)
+			{
+				Interpolation_2D g = fresh();
+				Interpolation_2D b = mk.make();
+				o.f(g.Interpolate(x, y));
+				o.f(b.Interpolate(x, y));
+			}
+			else
+			{
+				o.f(std::nan(""));
+				o.f(std::nan(""));
+			}
+		}
 	}
 	else
 		return 0;
